@@ -59,6 +59,12 @@ fn plan_candidates(p: &Plan) -> Vec<Plan> {
             ..p.clone()
         });
     }
+    if p.one_shot {
+        out.push(Plan {
+            one_shot: false,
+            ..p.clone()
+        });
+    }
     if p.replace_before_open.is_some() {
         out.push(Plan {
             replace_before_open: None,
